@@ -37,8 +37,20 @@ EXPR_SEQ_FAULTS = [H("expr", "expr_d2", args=[r, 1, 0], weight=6, thorough_only=
 RACES = [H("races", "race_compose", 2, 3, args=[k, oa, ob, ns]) for k in (0, 1, 2, 3) for (oa, ob, ns) in ((0, 0, 0), (1, 0, 0), (2, 1, 0), (0, 2, 0), (1, 2, 1))]
 RACE_LVSS = [H("races", "race_lvss", 2, 3, args=[4, 0, 0], **{"max-failures": 60}), H("races", "race_lvss", 2, 3, args=[4, 1, 0], **{"max-failures": 60})]
 
+# C18(b): the exprgen sweep contains any_sender_of as an adaptor at every position (differential against the same
+# reference model as the unwrapped tree); sch_any covers any_scheduler; strm_seq covers type_erased_stream
 CHECKS = {
     "C19": {"harnesses": C19_HARNESSES},
+    "C18": {
+        "harnesses": [
+            H("anyw", "any_storage"),
+            H("anyw", "any_unique_seq", args=[3]), H("anyw", "any_object_seq", args=[3]), H("anyw", "any_object_nt_seq", args=[3]),
+            H("anyw", "any_unique_seq", args=[4], thorough_only=True), H("anyw", "any_object_seq", args=[4], thorough_only=True),
+            H("stop", "stop_adapter", 3, 5), H("sched", "sch_any", 3, 4),
+            H("expr", "expr_d1"), H("expr", "expr_d2", args=[15, 0, 1]),
+            H("streams", "strm_seq", args=[5]),
+        ] + [H("expr", "expr_d2", args=[r, 0, 1], weight=4, thorough_only=True) for r in range(18, 28)],
+    },
     "C07": {
         "harnesses": [H("timers", "tim_single", 2, 3, args=list(a)) for a in (
             (2, 3, 0, 0), (3, 2, 0, 0), (4, 2, 0, 0), (2, 4, 0, 0), (0, 1, 0, 0), (1, 0, 0, 0), (4, 4, 0, 0), (4, 2, 1, 0), (2, 2, 1, 0), (0, 4, 1, 0),
